@@ -38,12 +38,12 @@ struct scalar_type_finder<Tensor<T,N>> {
 };
 template<typename T, size_t ... Rest>
 struct scalar_type_finder<TensorMap<T,Rest...>> {
-    using type = T;
+    using type = remove_all_t<T>;
 };
 // This specific specialisation is needed to avoid ambiguity for vectors
 template<typename T, size_t N>
 struct scalar_type_finder<TensorMap<T,N>> {
-    using type = T;
+    using type = remove_all_t<T>;
 };
 
 template<template <class,size_t> class UnaryExpr, typename Expr, size_t DIMS>
